@@ -142,6 +142,83 @@ def reachable_mutables(v, seen=None, out=None):
     return out
 
 
+_SHARED_OBJECTS = None
+
+
+def shared_object_ids():
+    """ids of the mutable objects that live at module level or in class attributes of the repository (instances of its
+    non-frozen attrs classes, lists, dicts, sets, bytearrays, and everything mutable reachable from them) -> where they live"""
+    global _SHARED_OBJECTS
+    if _SHARED_OBJECTS is None:
+        import sys
+        import enum as _enum
+        out = {}
+
+        def walk(o, where, depth=0):
+            if depth > 4 or isinstance(o, (_enum.Enum, type, str, bytes, int, float, type(None))) or id(o) in out:
+                return
+            if isinstance(o, (list, dict, set, bytearray)):
+                out[id(o)] = where
+                for x in (o.values() if isinstance(o, dict) else o if not isinstance(o, bytearray) else ()):
+                    walk(x, where, depth + 1)
+            elif isinstance(o, tuple):
+                for x in o:
+                    walk(x, where, depth + 1)
+            elif attr.has(type(o)) and type(o).__module__.startswith('cryptoparser'):
+                if getattr(type(o), '__setattr__', object.__setattr__) is object.__setattr__:
+                    out[id(o)] = where
+                for a in attr.fields(type(o)):
+                    walk(getattr(o, a.name, None), where, depth + 1)
+        listed = known_shared()
+        for mname, mod in list(sys.modules.items()):
+            if not mname.startswith('cryptoparser') or mod is None:
+                continue
+            for gname, g in list(vars(mod).items()):
+                if isinstance(g, type) and getattr(g, '__module__', '') == mname:
+                    for aname, a in list(vars(g).items()):
+                        walk(a, '%s.%s.%s' % (mname, g.__name__, aname))
+                    if attr.has(g):
+                        short = mname.split('.', 1)[1] + '.' + g.__name__
+                        for f in attr.fields(g):
+                            if f.default is not attr.NOTHING and not isinstance(f.default, attr.Factory) \
+                                    and '%s.%s' % (short, f.name) not in listed and not any(
+                                        '%s.%s' % (k.__module__.split('.', 1)[1] + '.' + k.__name__, f.name) in listed for k in g.__mro__
+                                        if k.__module__.startswith('cryptoparser.')):
+                                walk(f.default, 'default of %s.%s' % (short, f.name))
+                elif not isinstance(g, type):
+                    walk(g, '%s.%s' % (mname, gname))
+        _SHARED_OBJECTS = out
+    return _SHARED_OBJECTS
+
+
+def native_reachable(v, seen=None, out=None):
+    """native (concrete) mutable objects reachable from a symbolic result"""
+    seen = seen if seen is not None else set()
+    out = out if out is not None else []
+    if id(v) in seen:
+        return out
+    seen.add(id(v))
+    if isinstance(v, SObj):
+        for x in v.f.values():
+            native_reachable(x, seen, out)
+    elif isinstance(v, (list, tuple)):
+        if isinstance(v, list):
+            out.append(v)
+        for x in v:
+            native_reachable(x, seen, out)
+    elif isinstance(v, dict):
+        out.append(v)
+        for x in v.values():
+            native_reachable(x, seen, out)
+    elif isinstance(v, (bytearray, set)):
+        out.append(v)
+    elif attr.has(type(v)) and type(v).__module__.startswith('cryptoparser') and not isinstance(v, __import__('enum').Enum):
+        out.append(v)
+        for a in attr.fields(type(v)):
+            native_reachable(getattr(v, a.name, None), seen, out)
+    return out
+
+
 def alias_unit(cls):
     def thunk():
         P = E.cur()
@@ -160,6 +237,10 @@ def alias_unit(cls):
         obj = r.value[0] if isinstance(r.value, tuple) else r.value
         shared = any(m is P.buf for m in reachable_mutables(obj))
         e1.record_path_fact(P, 'alias %s: the parsed object does not reference the caller\'s buffer' % cls.__name__, not shared)
+        ids = shared_object_ids()
+        hits = sorted({ids[id(m)] for m in native_reachable(obj) if id(m) in ids})
+        e1.record_path_fact(P, 'alias %s: the parsed object holds no mutable object that lives at module or class level%s'
+                            % (cls.__name__, '' if not hits else ' (' + ', '.join(hits[:3]) + ')'), not hits)
 
     def run():
         e1.setup()
